@@ -547,3 +547,30 @@ pub fn h_c08_arithmetic_results_are_finite() {
     check("C08.arithmetic.finite_number_or_num_error", ok);
     reach("C08.arithmetic");
 }
+
+/// two dynamic arrays whose spill areas overlap in one cell (C1 = SEQUENCE(3) down, A3 = SEQUENCE(1,3) across, both
+/// want C3): which of them is blocked must not depend on the order of entry or on when evaluation ran
+pub fn h_c07_overlapping_spills() {
+    let build = |first_a3: bool, eval_each: bool| -> Option<Model<'static>> {
+        let mut model = model_from_workbook(workbook_with_cells(vec![empty_sheet("Sheet1", 1)]));
+        let cells = if first_a3 { [(3, 1, "=SEQUENCE(1,3)"), (1, 3, "=SEQUENCE(3)")] } else { [(1, 3, "=SEQUENCE(3)"), (3, 1, "=SEQUENCE(1,3)")] };
+        let mut i = 0;
+        while i < 2 {
+            if model.set_user_input(0, cells[i].0, cells[i].1, cells[i].2.to_string()).is_err() { return None; }
+            if eval_each { model.evaluate(); }
+            i += 1;
+        }
+        model.evaluate();
+        Some(model)
+    };
+    let reference = build(false, false);
+    let (first_a3, eval_each) = (any_bool(), any_bool());
+    let other = build(first_a3, eval_each);
+    check("C07.overlap.entered", reference.is_some() & other.is_some());
+    let (a, b) = match (reference, other) { (Some(a), Some(b)) => (a, b), _ => return };
+    let vals = |m: &Model| [m.get_cell_value_by_index(0, 1, 3), m.get_cell_value_by_index(0, 2, 3), m.get_cell_value_by_index(0, 3, 3), m.get_cell_value_by_index(0, 3, 1), m.get_cell_value_by_index(0, 3, 2)];
+    // KF-C07-1: when A3 is entered and evaluated before C1 exists, its spill keeps C3 and C1 stays #SPILL!; in every other
+    // schedule C1 (first in evaluation order) wins
+    check_kf("C07.overlap.same_values", vals(&a) == vals(&b), "KF-C07-1", first_a3 & eval_each);
+    reach("C07.overlap");
+}
